@@ -45,19 +45,36 @@ GEOS = [{"origin": [0.0, 0.0, 0.0], "dx0": [0.25, 0.25, 0.25]}, {"origin": [1.0,
 TIMES = [1.6457727058794072e-11, 0.0, 2.0, 0.5]
 
 
+def more_meshes():
+    """thorough: level-0 tilings of a 2x2x1 block grid x fine box sets"""
+    ms = []
+    blocks = (2, 2, 1)
+    dom = [4, 4, 2]
+    for t in scope.level0_tilings(blocks, 3):
+        l0 = [[list(lo), list(hi)] for lo, hi in t]
+        ms.append({"domain": dom, "levels": [l0]})
+        fines = scope.fine_box_sets(t, [8, 8, 4], 4, 2, maxsize=8)
+        for fs in fines[::5]:
+            ms.append({"domain": dom, "levels": [l0, [[list(lo), list(hi)] for lo, hi in fs]]})
+    return ms
+
+
 def cases(tier, seed):
     out = []
     k = seed
-    for mi, mesh in enumerate(meshes()):
+    allm = meshes() + (more_meshes() if tier == "thorough" else [])
+    for mi, mesh in enumerate(allm):
         nlev = len(mesh["levels"])
         # layouts: every layout of the state subset on the level with most boxes; named classes for gradp / I_R
         lvmax = max(range(nlev), key=lambda l: len(mesh["levels"][l]))
         nb = len(mesh["levels"][lvmax])
         Ls = scope.layouts(nb, 'idrev') if nb > 1 else [None]
         named = [Ls[0], Ls[-1], Ls[len(Ls) // 2]] if nb > 1 else [None]
+        if mi >= 3:          # generated meshes: named layouts only
+            Ls = named
         for li, lay in enumerate(Ls):
             for gi, gl in enumerate(named):
-                if tier == "quick" and gi and li % 3:
+                if (tier == "quick" or mi >= 3) and gi and li % 3:
                     continue
                 k += 1
                 lays = {"state": [None] * nlev, "gradp": [None] * nlev, "I_R": [None] * nlev}
@@ -70,11 +87,11 @@ def cases(tier, seed):
                           "seed": seed, "int_line": False})
                 opts = []
                 for gp, rx, fl in itertools.product([True, False], repeat=3):
-                    if tier == "quick" and (li + gi) and (gp, rx, fl) not in ((True, False, True), (False, True, False), (True, True, True)):
+                    if (tier == "quick" or mi >= 3) and (li + gi) and (gp, rx, fl) not in ((True, False, True), (False, True, False), (True, True, True)):
                         continue
                     opts.append([gp, rx, fl])
                 out.append({"desc": d, "opts": opts, "source": ["list", "ref_Y", "ref_IR"][k % 3],
-                            "schedules": li in (0, len(Ls) - 1) and gi == 0, "w": len(opts) * nlev})
+                            "schedules": (li in (0, len(Ls) - 1) and gi == 0) or (tier == "thorough" and mi < 3), "w": len(opts) * nlev})
     # the optional integer line before the time
     d = dict(meshes()[1])
     d.update(GEOS[1])
